@@ -312,4 +312,19 @@ def run_list(cell, g, fails, feats):
             e = ll2.expected_log_prob((y1, d1), (y2, d2))
             fails.check_close("likelihood-list", e[0], l1.expected_log_prob(y1, d1), 0, 0)
             fails.check_close("likelihood-list", e[1], l3.expected_log_prob(y2, d2), 0, 0)
+        # every entry point applies each member with its own arguments: expected_log_prob with per-member call-time noise,
+        # log_marginal and marginal per member
+        with torch.no_grad():
+            with fails.guard("likelihood-list-noise"):
+                v1, v2 = 0.05 + util.rand(g, n), 0.05 + util.rand(g, n + 1)
+                e = ll.expected_log_prob((y1, d1), (y2, d2), noise=[v1, v2])
+                fails.check_close("likelihood-list-noise", e[0], l1.expected_log_prob(y1, d1, noise=v1), 0, 0, "member 0, call-time noise")
+                fails.check_close("likelihood-list-noise", e[1], l2.expected_log_prob(y2, d2, noise=v2), 0, 0, "member 1, call-time noise")
+            with fails.guard("likelihood-list-marginal"):
+                lm = ll2.log_marginal((y1, d1), (y2, d2))
+                fails.check_close("likelihood-list-marginal", lm[0], l1.log_marginal(y1, d1), 0, 0, "log_marginal member 0")
+                fails.check_close("likelihood-list-marginal", lm[1], l3.log_marginal(y2, d2), 0, 0, "log_marginal member 1")
+                mg = ll2.marginal(d1, d2)
+                fails.check_close("likelihood-list-marginal", mg[0].covariance_matrix, l1.marginal(d1).covariance_matrix, 0, 0, "marginal member 0")
+                fails.check_close("likelihood-list-marginal", mg[1].covariance_matrix, l3.marginal(d2).covariance_matrix, 0, 0, "marginal member 1")
     return "list"
